@@ -19,7 +19,7 @@ Section WithEvalS.
         match ev en o a with
         | (Val v, o1) =>
             match eval_argsS en o1 rest with
-            | (AVals vs, o2) => (AVals (v :: vs), o2)
+            | (AVals vs, o2) => (AVals (first_val v :: vs), o2)
             | r => r
             end
         | (r, o1) => (AStop r, o1)
@@ -45,6 +45,20 @@ Section WithEvalS.
     | [c; a; b] => go c a (Some b)
     | _ => (Err EBadForm, o)
     end.
+  Definition eval_caseS (en : env) (o : list value) (args : list sexp) : res * list value :=
+    match args with
+    | [] => (Err EBadForm, o)
+    | k :: clauses =>
+        match eval_argsS en o [k] with
+        | (AVals [key], o1) =>
+            match select_clause key clauses with
+            | None => (Err EBadForm, o1)
+            | Some forms => eval_bodyS en o1 forms VNil
+            end
+        | (AVals _, o1) => (Err EBadForm, o1)
+        | (AStop r, o1) => (r, o1)
+        end
+    end.
 End WithEvalS.
 
 Fixpoint evalS (n : nat) (ft : ftab) (en : env) (o : list value) (e : sexp) : res * list value :=
@@ -53,10 +67,11 @@ Fixpoint evalS (n : nat) (ft : ftab) (en : env) (o : list value) (e : sexp) : re
   | S n' =>
       match e with
       | SInt z => (Val (VInt z), o)
-      | SSym x => (match slookup x en with Some v => Val v | None => Err EUnbound end, o)
+      | SSym x => (sym_value en x, o)
       | SList _ (SSym f :: args) =>
           match builtin_of f with
           | Some BIf => eval_ifS (evalS n' ft) en o args
+          | Some BCase => eval_caseS (evalS n' ft) en o args
           | Some b =>
               match eval_argsS (evalS n' ft) en o args with
               | (AVals vs, o1) => apply_bi b vs o1
